@@ -36,7 +36,8 @@ def popH (left : Bool) (args : List Bytes) : HRes :=
         match o with
         | .blist (v :: vs) =>
           let bs := (v :: vs).map (·.getD [])
-          if cnt.1 = 1 then done s [.bulk (v.getD [])] else done s (bulkList bs)
+          -- without a count one bulk string; with a count (also 1) an array (since the repair "LPOP k 1 replied a bulk string")
+          if rest.isEmpty then done s [.bulk (v.getD [])] else done s (bulkList bs)
         | _ => done s [.nullBulk]
 
 /-- LLEN: -1 (value of another type) is rendered as a null bulk -/
